@@ -107,6 +107,12 @@ def r1_structural_recursion(ctx, nf) -> None:
         paths = [p for p in nf.paths(k, "resolve", self_t=sym("self")) if p[1] == "return"]
         # the path that rebuilds the value (the other returns `self`, see R2)
         rebuilt = [p for p in paths if p[2] != sym("self")]
+        shortcut = [p for p in paths if p[2] == sym("self")]
+        if shortcut:
+            gd = " and ".join(("" if tk else "not ") + u(n)[:60] for _, tk, n in shortcut[0][0])
+            ctx.fail("C11.R1", inst + ": shortcut", k.module.path, shortcut[0][3].lineno,
+                     f"{c.name}.resolve returns the value unresolved on the path [{gd}] (outside the not-found handlers): opaque types inside it stay "
+                     "unresolved although the registry could resolve them", shortcut[0][3])
         if not rebuilt:
             ctx.fail("C11.R1", inst, k.module.path, m.lineno, f"{c.name}.resolve never rebuilds the value", m)
             continue
@@ -329,6 +335,9 @@ def run(ctx) -> None:
     r3_wire(ctx, nf)
     r4_model(ctx, nf)
     r5_hugr(ctx)
+    from .. import lints
+    lints.arm(ctx)
+
 
 
 # ---------------------------------------------------------------------------------------
